@@ -225,6 +225,48 @@ fn reduce_world(prop: &dyn Prop, world: &mut World, ops: &mut Vec<Op>, v: &mut V
             }
         }
     }
+    // pattern texts: drop characters (a candidate that no longer parses simply does not reproduce)
+    for c in 0..world.configs.len() {
+        for m in 0..world.configs[c].len() {
+            for pi in 0..world.configs[c][m].patterns.len() {
+                for which in 0..2 {
+                    let mut changed = true;
+                    while changed {
+                        changed = false;
+                        let text = if which == 0 {
+                            world.configs[c][m].patterns[pi].pattern.clone()
+                        } else {
+                            match &world.configs[c][m].patterns[pi].lookahead {
+                                Some(la) => la.pattern.clone(),
+                                None => break,
+                            }
+                        };
+                        let idxs: Vec<(usize, char)> = text.char_indices().collect();
+                        if idxs.len() <= 1 {
+                            break;
+                        }
+                        for (pos, ch) in idxs.into_iter().rev() {
+                            if b.execs == 0 {
+                                return;
+                            }
+                            let mut t = text.clone();
+                            t.replace_range(pos..pos + ch.len_utf8(), "");
+                            let mut w = world.clone();
+                            if which == 0 {
+                                w.configs[c][m].patterns[pi].pattern = t;
+                            } else {
+                                w.configs[c][m].patterns[pi].lookahead.as_mut().unwrap().pattern = t;
+                            }
+                            if try_accept!(w, ops.clone()) {
+                                changed = true;
+                                break;
+                            }
+                        }
+                    }
+                }
+            }
+        }
+    }
     // inputs: drop characters, from the end
     for i in 0..world.inputs.len() {
         let mut changed = true;
